@@ -187,6 +187,24 @@ def subdomains_kept_when_asked(u):
     return b.hostname == pin[3].lower()
 
 
+def amp_label_kept_after_default_call(u):
+    """normalize_amp=False keeps an 'amp' host label, also when the same url was normalized with the defaults before"""
+    pin = U.parse(u, "http")
+    if pin is None or not pin[3]:
+        return True
+    labels = pin[3].lower().split(".")
+    if "amp" not in labels[:-2]:
+        return True
+    try:
+        normalize_url(u)
+        b = normalize_url(u, normalize_amp=False, unsplit=False, infer_redirection=False)
+    except Exception:
+        return True
+    if isinstance(b, str) or not b.hostname:
+        return True
+    return "amp" in b.hostname.split(".")
+
+
 _AMP_KEY = re.compile(r"^amp(?:_.+)?$", re.I)
 
 
